@@ -233,6 +233,8 @@ def hostile(rng, files, trig=0.15):
     r = rng.random()
     if r < .05:
         return eof_program(rng)
+    if r < .075:
+        return lookalike(rng, files)
     if r < .13:
         return ''.join(fstring_program(rng) for _ in range(rng.choice([1, 1, 2, 3])))
     if r < .16:
@@ -402,6 +404,39 @@ def fstring_program(rng):
                     'if %s: pass\n', 'x = [%s for a in b]\n', '%s\ny = 1\n'])
     out = t.replace('%s', lit, 1)
     return out.replace('%s', fstring_literal(rng)) if '%s' in out else out
+
+
+# ---------------------------------------------------------------------------
+# look-alikes: identifiers whose NFKC form is a keyword (fullwidth / mathematical letters) where the keyword would stand,
+# and keywords of other versions / capitalisations - names, never keywords
+
+_KEYWORDS = ['if', 'else', 'elif', 'for', 'in', 'is', 'not', 'and', 'or', 'def', 'class', 'return', 'import', 'from', 'as', 'with', 'while', 'pass',
+             'del', 'lambda', 'try', 'except', 'finally', 'raise', 'yield', 'global', 'nonlocal', 'assert', 'async', 'await', 'None', 'True', 'False',
+             'break', 'continue', 'match', 'case', 'type', 'print', 'exec']
+
+
+def _disguise(word, rng):
+    k = rng.randrange(4)
+    if k == 0:      # fullwidth
+        return ''.join(chr(ord(c) - 0x21 + 0xFF01) if '!' <= c <= '~' else c for c in word)
+    if k == 1:      # mathematical bold / sans-serif
+        base = rng.choice([0x1D41A, 0x1D5BA, 0x1D68A])
+        return ''.join(chr(base + ord(c) - ord('a')) if 'a' <= c <= 'z' else (chr(base - 26 + ord(c) - ord('A')) if 'A' <= c <= 'Z' else c) for c in word)
+    if k == 2:      # one letter only
+        i = rng.randrange(len(word))
+        return word[:i] + chr(ord(word[i]) - 0x21 + 0xFF01) + word[i + 1:]
+    return rng.choice([word.upper(), word.capitalize(), word + '́', word[0] + '‍' + word[1:]])
+
+
+def lookalike(rng, files):
+    import re
+    base = corpus_slice(rng, files, maxlines=15, inject=(0, 0)) if rng.random() < .7 else rng.choice(RULE_TRIGGERS)
+    hits = [m for m in re.finditer(r'\b(%s)\b' % '|'.join(_KEYWORDS), base)]
+    if not hits:
+        return _disguise(rng.choice(_KEYWORDS), rng) + ' x: pass\n'
+    for m in sorted(rng.sample(hits, min(len(hits), rng.choice([1, 1, 2, 3]))), key=lambda m: -m.start()):
+        base = base[:m.start()] + _disguise(m.group(0), rng) + base[m.end():]
+    return base
 
 # ---------------------------------------------------------------------------
 # histories (C04, C20)
